@@ -51,6 +51,8 @@ const PRELUDES: &[&str] = &[
     "v=1; trap - INT; trap 'p t' QUIT USR1; trap - QUIT; trap '' TERM; trap - TERM; trap -p >/dev/null",
     // the signals an asynchronous list ignores anyway are already ignored / trapped in the parent
     "trap '' INT; trap 'p q' QUIT; trap 'p t' TERM",
+    // an EXIT trap with a command action: it is the parent's, to be run once, by the parent
+    "v=1; trap 'p pexit' EXIT; trap 'p t' USR1",
 ];
 
 #[derive(Clone, Copy, Debug, PartialEq, Eq)]
@@ -156,6 +158,11 @@ fn judge(c: &Case, r: &Run) -> Option<(String, String)> {
     let (Some((ppid, before)), Some((_, after))) = (s.get("before"), s.get("after")) else {
         return Some(("missing-snapshot".into(), format!("before/after snapshot missing; stderr={:?}", r.stderr)));
     };
+    // 0. the parent's EXIT trap (sixth prelude) is not the subshell's: traps with command actions
+    // are reset on entry, so no other process may run its action
+    if let Some(e) = r.trace.iter().find(|e| e.text.starts_with("pexit:") && e.pid != *ppid) {
+        return Some(("subshell-ran-parents-exit-trap".into(), format!("process {} ran the action of the parent's EXIT trap", e.pid)));
+    }
     // 1. parent unchanged
     for (k, v) in before {
         if matches!(k.as_str(), "status" | "lastbg" | "jobs") {
@@ -191,7 +198,12 @@ fn judge(c: &Case, r: &Run) -> Option<(String, String)> {
     }
     // 1b. nothing ran in the parent between the two snapshots (e.g. a trap action triggered by
     // a signal the subshell meant for itself)
-    if let Some(e) = r.trace.iter().find(|e| e.pid == *ppid && !e.text.starts_with("snap ")) {
+    // (the parent's own EXIT trap of the sixth prelude runs after the last snapshot: exactly once)
+    let own_exits = r.trace.iter().filter(|e| e.pid == *ppid && e.text.starts_with("pexit:")).count();
+    if own_exits != usize::from(PRELUDES[c.prelude].contains("EXIT")) {
+        return Some(("parent-exit-trap-count".into(), format!("the parent ran its EXIT trap {own_exits} times")));
+    }
+    if let Some(e) = r.trace.iter().find(|e| e.pid == *ppid && !e.text.starts_with("snap ") && !e.text.starts_with("pexit:")) {
         return Some(("parent-ran-command".into(), format!("the parent shell executed `{}` while only the subshell was running", e.text)));
     }
     // 2. child sees a copy
